@@ -84,8 +84,12 @@ class NetworkService(ModelElement):
             super().__init__(name=name, node_id=node_id, topo=topo)
             if nstype is None:
                 raise TopologyException("When creating new services you must specify ServiceType")
-            if interfaces is not None and not isinstance(interfaces, (list, tuple)):
-                raise TopologyException("When creating new services interfaces must be specified as a list.")
+            if interfaces is not None:
+                # any collection of interfaces will do (a list, a tuple, a set, a dict view), a single interface or a
+                # string will not; it is read once, here, before anything is added to the model
+                if isinstance(interfaces, (Interface, str)) or not hasattr(interfaces, '__iter__'):
+                    raise TopologyException("When creating new services interfaces must be specified as a list.")
+                interfaces = list(interfaces)
 
             sliver = NetworkServiceSliver()
             sliver.node_id = self.node_id
